@@ -4,6 +4,9 @@ LEVEL = 'other'
 
 def build(ctx):
     ctx.task('contracts.cli:task_cli')
+    # 'the assembled program' of a run with -i / --include-definitions is what the reader splices and the pipeline assembles
+    ctx.task('contracts.reader:task_reader')
+    ctx.task('contracts.pipeline:task_pipeline')
     ctx.trust('intelhex.bin2hex is a dependency: assumed to write the Intel HEX image of the file at the offset (read back by an independent reader in the bounded tier)')
     ctx.trust('argparse yields the option values; modelled as arbitrary values')
 
@@ -11,6 +14,8 @@ def build(ctx):
 def bounded(ctx):
     from bounded import cli_runs
     cli_runs.run_all(ctx, ctx.tier)
+    from bounded import includes
+    includes.run_all(ctx, ctx.tier, props=('C14',))      # include trees through the CLI with -i from foreign working directories
 
 
 def explanation(ctx):
